@@ -407,7 +407,7 @@ func checkC09(c *runCtx) {
 		"goroutine scheduling inside one event is not explored here (one quiescent outcome per event); ports are assigned per bind address so that the outcome does not depend on it")
 	p := newVTPool()
 	defer p.close()
-	dl := c01deadline(c, 150, 1500)
+	dl := c01deadline(c, 240, 1500)
 	depth := 7
 	if !c.quick() {
 		depth = 9
